@@ -64,6 +64,10 @@ TRfWrite ==
   /\ E.ev = "rfwrite"
   /\ IF ~Pre THEN Harness("harness-tree-changed-between-calls") ELSE RFWrite(E.h1) /\ Adv
 
+TAge ==
+  /\ E.ev = "age"
+  /\ IF ~Pre THEN Harness("harness-tree-changed-between-calls") ELSE TimePasses(E.h1) /\ Adv
+
 (***************************************************************************)
 (* Read-only calls                                                         *)
 (***************************************************************************)
@@ -87,7 +91,9 @@ TRead ==
          viaRf == E.api = "rfmeta"
      IN IF E.r \notin DOMAIN readers \/ ~QueryOK(q) THEN Harness("harness-invalid-query")
         ELSE IF (readers[E.r].kind = "rf") # viaRf THEN Harness("harness-wrong-reader-kind")
-        ELSE LET exp == ReadAlg(q)
+        ELSE LET \* the RF reader merges the channel's inherent fields into every sample; with those stripped a sample
+                 \* without fields cannot be told from "no metadata there", so it is not compared on that path
+                 exp == IF viaRf THEN SelectSeq(ReadAlg(q), LAMBDA row : row[2] # <<>>) ELSE ReadAlg(q)
                  obs == ObsRows(E.rows)
                  \* forward fill on a channel that holds nothing yet: the property does not say (the code raises)
                  open == q.method = "ffill" /\ Dom = {}
@@ -128,11 +134,11 @@ TRfObs ==
   /\ IF ~IsRf(E.r) THEN Harness("harness-wrong-reader-kind") ELSE ReadOnlyThen(RFObs(E.r, E.what), {})
 TList == E.ev = "list" /\ ReadOnlyThen(List, {})
 
-TOther == /\ E.ev \notin {"write", "rfwrite", "newreader", "read", "bounds", "latest", "fields", "rfobs", "list"}
+TOther == /\ E.ev \notin {"age", "write", "rfwrite", "newreader", "read", "bounds", "latest", "fields", "rfobs", "list"}
           /\ Harness("harness-unknown-event")
 
 TNext ==
-  \/ HasEvent /\ (TWrite \/ TRfWrite \/ TNewReader \/ TRead \/ TBounds \/ TLatest \/ TFields \/ TRfObs \/ TList \/ TOther)
+  \/ HasEvent /\ (TWrite \/ TRfWrite \/ TAge \/ TNewReader \/ TRead \/ TBounds \/ TLatest \/ TFields \/ TRfObs \/ TList \/ TOther)
   \/ Finish /\ UNCHANGED vars
 TSpec == TInit /\ [][TNext]_allvars
 
